@@ -166,6 +166,11 @@ class Scripted4(Scripted):
         self.handled += 1
         return super().handle_event(event)
 
+    @property
+    def inflight(self):
+        """Generator processes currently sleeping (returns to 0 whenever all have finished)."""
+        return len(self.ctx.procs)
+
 
 HEAP_EXACT_BEH = {"nop", "emit", "gen", "genside", "emitrev"}
 STATELESS_BEH = {"nop", "emit", "gen", "genside", "past", "past2", "emitrev"}
@@ -176,6 +181,7 @@ class ProgModel:
     tick = 1
     cond_target = "B"
     metric_bp = ("A", "handled", "ge", 2)
+    metric0_bp = ("A", "inflight")
     params = {"A": {"H": 1, "BT": 1, "BC": 2, "BE": "r", "I": 0},
               "B": {"H": 2, "BT": 2, "BC": 3, "BE": "p", "I": 1}}
 
@@ -189,9 +195,33 @@ class ProgModel:
         self.stateless = behs_ok and all(k in ("plain", "daemon") for (_t, _ti, k, _b) in program)
         # stateless entities, but some pre-run event was cancelled before run(): kept apart (own shape class)
         self.precancelled = behs_ok and not self.stateless
+        # cancellations made by model code DURING the run are model behaviour and happen again on replay.
+        # The harness' cancel behaviour holds the ORIGINAL event object, so such a program repeats its
+        # delivery sequence after reset() exactly when every cancel was a no-op in the original run
+        # (its target had already been delivered, is the cancelling event itself, or does not exist).
+        self.cancel_safe = False
+        if (not behs_ok and all(k in ("plain", "daemon") for (_t, _ti, k, _b) in program)
+                and all(b[0] in STATELESS_BEH or b[0] == "cancel" for (_t, _ti, _k, b) in program)):
+            self.cancel_safe = _cancels_are_noops(self)
+            self.stateless = self.cancel_safe
 
     def build(self, recorder=None):
         return ProgWorld(self, recorder)
+
+
+def _cancels_are_noops(model):
+    w = ProgWorld(model, None)
+    w.sim.run()
+    c = w.c
+    order = {d[0]: i for i, d in enumerate(c.deliveries)}
+    for seq in range(len(model.program)):
+        ck = c.reg[seq]["cancel_key"]
+        if ck is None:
+            continue
+        by = ck[1]
+        if seq != by and not (seq in order and order[seq] < order.get(by, -1)):
+            return False
+    return True
 
 
 class ProgWorld:
@@ -224,6 +254,9 @@ class ProgWorld:
 
     def metric(self):
         return self.c.ents[0].handled
+
+    def metric0(self):
+        return self.c.ents[0].inflight
 
     def obs(self):
         a, b = self.c.ents
@@ -302,6 +335,7 @@ class PipeModel:
     tick = 125_000_000
     cond_target = "Sink"
     metric_bp = ("Sink", "events_received", "ge", 2)
+    metric0_bp = ("Srv", "active_requests")
     stateless = False
     precancelled = False
     heap_exact = True
@@ -347,6 +381,9 @@ class PipeWorld:
     def metric(self):
         return self.sink.events_received
 
+    def metric0(self):
+        return self.srv.active_requests
+
     def obs(self):
         st = self.srv.stats
         return (tuple(self.log), self.sink.events_received,
@@ -375,6 +412,7 @@ class RandModel:
     tick = 125_000_000
     cond_target = "Sink"
     metric_bp = ("Sink", "events_received", "ge", 2)
+    metric0_bp = ("Srv0", "active_requests")
     stateless = False
     precancelled = False
     heap_exact = True
@@ -477,8 +515,12 @@ class GWorker(GBase):
         w.log.append(("dlv", self.now.nanoseconds, self.name, event.event_type, md.get("tag")))
         return self._serve(md)
 
+    busy = 0
+
     def _serve(self, md):
+        self.busy += 1
         yield md["work"] / 512.0
+        self.busy -= 1
         self.w.log.append(("served", self.now.nanoseconds, md["tag"]))
         md["fut"].resolve(("ok", md["tag"]))
         return None
@@ -513,6 +555,7 @@ class GenFutModel:
     tick = GTICK
     cond_target = "W"
     metric_bp = ("K", "count", "ge", 1)
+    metric0_bp = ("W", "busy")
     stateless = False
     precancelled = False
     heap_exact = True
@@ -564,6 +607,9 @@ class GenFutWorld:
 
     def metric(self):
         return self.sink.count
+
+    def metric0(self):
+        return self.worker.busy
 
     def obs(self):
         return (tuple(self.log), self.sink.count)
@@ -664,7 +710,7 @@ def _run_reference(model, plan, limit):
     for (pos, d, idx) in plan:
         byp.setdefault(pos, []).append((d, idx))
     st = ctl.get_state()
-    D = [(w.start_ns, None, None, w.metric(), st.heap_size, st.primary_events_remaining, w.nlog())]
+    D = [(w.start_ns, None, None, w.metric(), st.heap_size, st.primary_events_remaining, w.nlog(), w.metric0())]
     tick = w.tick
     for (d, idx) in byp.get(0, ()):
         sim.schedule(w.inject(w.start_ns + d * tick, idx, d))
@@ -674,7 +720,7 @@ def _run_reference(model, plan, limit):
         s2 = ctl.get_state()
         t = ev.time.nanoseconds
         D.append((t, ev.event_type, getattr(ev.target, "name", None), w.metric(),
-                  s2.heap_size, s2.primary_events_remaining, w.nlog()))
+                  s2.heap_size, s2.primary_events_remaining, w.nlog(), w.metric0()))
         for (d, idx) in byp.get(j, ()):
             sim.schedule(w.inject(t + d * tick, idx, d))
 
@@ -767,6 +813,8 @@ def ext_alphabet(model, with_reset):
             a.append(op)
     a.append(("BM1",))   # one-shot metric breakpoint
     a.append(("BE1", model.params["A"]["BE"]))  # one-shot event-type breakpoint
+    a.append(("BZ", "eq", 0, False))   # metric breakpoints satisfied at a falsy value
+    a.append(("BZ", "le", 0, True))
     if with_reset:
         a.append(("Z",))
     return a
@@ -782,15 +830,21 @@ def alphabet_of(model, aid):
     if aid == "rst":  # reset-focused
         P = model.params["A"]
         return [("P",), ("S", 1), ("S", 2), ("R",), ("H", 1), ("BC", P["BC"]), ("BM",), ("I", 0), ("Z",)]
+    if aid == "insp":  # inspection / removal calls and metric breakpoints that hold at value 0
+        P = model.params["A"]
+        return [("S", 1), ("S", 2), ("R",), ("H", 1), ("BC", P["BC"]), ("BM",),
+                ("BZ", "eq", 0, False), ("BZ", "lt", 1, False), ("BZ", "le", 0, True), ("BZ", "ge", 0, True),
+                ("K", 1), ("K", 3), ("F",), ("G",), ("L",), ("XB",), ("XH",), ("XC",)]
     if aid == "pause":  # no breakpoints, no injection: pure pause / step / resume
         return [("P",), ("S", 1), ("S", 2), ("S", 5), ("R",), ("H", 1), ("H", 2), ("H", 3)]
     raise AssertionError(aid)
 
 
-BP_KINDS = ("BT", "BC", "BE", "BX", "BM", "BM1", "BE1")
+BP_KINDS = ("BT", "BC", "BE", "BX", "BM", "BM1", "BE1", "BZ")
+_OPS = {"eq": lambda a, b: a == b, "lt": lambda a, b: a < b, "le": lambda a, b: a <= b, "ge": lambda a, b: a >= b}
 BP_NAME = {"BT": "TimeBreakpoint", "BC": "EventCountBreakpoint", "BE": "EventTypeBreakpoint",
            "BX": "ConditionBreakpoint", "BM": "MetricBreakpoint", "BM1": "MetricBreakpoint",
-           "BE1": "EventTypeBreakpoint"}
+           "BE1": "EventTypeBreakpoint", "BZ": "MetricBreakpoint-at-zero"}
 
 
 def make_breakpoint(model, op):
@@ -810,6 +864,9 @@ def make_breakpoint(model, op):
     if k in ("BM", "BM1"):
         e, a, o, th = model.metric_bp
         return MetricBreakpoint(e, a, o, th, one_shot=(k == "BM1")), k == "BM1"
+    if k == "BZ":
+        e, a = model.metric0_bp
+        return MetricBreakpoint(e, a, op[1], op[2], one_shot=op[3]), op[3]
     raise AssertionError(op)
 
 
@@ -826,6 +883,8 @@ def bp_pred(model, op, j, Dj):
         return Dj[2] == model.cond_target
     if k in ("BM", "BM1"):
         return Dj[3] is not None and Dj[3] >= model.metric_bp[3]
+    if k == "BZ":
+        return Dj[7] is not None and _OPS[op[1]](Dj[7], op[2])
     raise AssertionError(op)
 
 
@@ -844,6 +903,9 @@ class Exec:
         self.done_segs = []
         self.ninj = 0
         self.nres = 0
+        self.nbp = 0
+        self.bp_ids = []
+        self.hook_ids = []
         self.error = None
         self.cur_op = None
         self.phase_after_script = None
@@ -910,11 +972,43 @@ class Exec:
                     ctl.pause()
                     items_ref.items.append(("fire", ctl.get_state().events_processed))
 
-            ctl.on_event(cb)
+            self.hook_ids.append(ctl.on_event(cb))
         elif k in BP_KINDS:
             bp, one = make_breakpoint(self.model, op)
-            ctl.add_breakpoint(bp)
-            self.items.append(("arm", (op, one)))
+            bid = ctl.add_breakpoint(bp)
+            self.nbp += 1
+            self.bp_ids.append((bid, self.nbp))
+            self.items.append(("arm", (op, one, self.nbp)))
+        elif k == "K" or k == "F":
+            # read-only heap inspection (only available while paused)
+            if self.phase == "new":
+                self._start_paused()
+            if self.phase == "paused":
+                if k == "K":
+                    ctl.peek_next(op[1])
+                else:
+                    ctl.find_events(lambda e: not e.daemon)
+        elif k == "G":
+            ctl.get_state()
+        elif k == "L":
+            ctl.list_breakpoints()
+        elif k == "XB":
+            # remove the most recently added breakpoint that is still registered (public listing)
+            live = {i for i, _bp in ctl.list_breakpoints()}
+            for n in range(len(self.bp_ids) - 1, -1, -1):
+                bid, uid = self.bp_ids[n]
+                if bid in live:
+                    ctl.remove_breakpoint(bid)
+                    del self.bp_ids[n]
+                    self.items.append(("disarm", uid))
+                    break
+        elif k == "XH":
+            if self.hook_ids:
+                ctl.remove_hook(self.hook_ids.pop())
+        elif k == "XC":
+            ctl.clear_breakpoints()
+            self.bp_ids = []
+            self.items.append(("disarm", None))
         elif k == "Z":
             ctl.reset()
             self.done_segs.append((self.items, list(self.w.log)))
@@ -995,11 +1089,15 @@ def judge(model, mode, script, ex, cache=CACHE):
         lastn = 0
         injected = False
         clause = "reset" if si > 0 else "run-divergence"
-        rshape = "pre-cancelled-event" if model.precancelled else "stateless"
+        rshape = ("pre-cancelled-event" if model.precancelled else
+                  "cancelled-after-delivery" if getattr(model, "cancel_safe", False) else "stateless")
         for it in items:
             tag = it[0]
             if tag == "arm":
                 armed.append(it[1])
+                continue
+            if tag == "disarm":
+                armed = [] if it[1] is None else [a for a in armed if a[2] != it[1]]
                 continue
             if tag == "inj":
                 injected = True
@@ -1058,7 +1156,7 @@ def judge(model, mode, script, ex, cache=CACHE):
             # -- breakpoints: never pass the first satisfying delivery without pausing right after it
             hit_at_q = False
             if not diverged:
-                for (bop, _one) in armed:
+                for (bop, _one, _uid) in armed:
                     for j in range(p + 1, q + 1):
                         if bp_pred(model, bop, j, D[j]):
                             if j < q:
@@ -1069,7 +1167,7 @@ def judge(model, mode, script, ex, cache=CACHE):
                                 hit_at_q = True
                             break
                 if q > p:
-                    armed = [(bop, one) for (bop, one) in armed if not (one and bp_pred(model, bop, q, D[q]))]
+                    armed = [a for a in armed if not (a[1] and bp_pred(model, a[0], q, D[q]))]
             # -- step(n)
             if kind == "S" and not diverged:
                 adv = q - p
@@ -1314,6 +1412,7 @@ def _stepper_job(job):
         for k in range(0, N + 1):
             scripts.append((("S", 1),) * k + (("I", 0),))
             scripts.append((("S", 1),) * k + (("I", d2),) + (("S", 1),) * 2)
+            scripts.append((("S", 1),) * k + ((("K", 1), ("F",)) if k % 2 else (("K", 3), ("G",))))
         for mode in modes:
             for sc in scripts:
                 visit(model, mode, sc, st, driver, "stepper")
@@ -1325,7 +1424,8 @@ def stepper_driver(run, seed, name, specs, modes, bounds, nchunks=128):
     d = run.driver(name)
     d.bounds.setdefault("parts", []).append(dict(
         bounds, models=len(specs), modes=modes,
-        scripts="S1^(N+1); S1^k I(0); S1^k I(d) S1 S1 for every k in 0..N (N = deliveries of the model)"))
+        scripts="S1^(N+1); S1^k I(0); S1^k I(d) S1 S1; S1^k peek_next/find_events/get_state for every k in 0..N "
+                "(N = deliveries of the model)"))
     jobs = [(name, ch, modes) for ch in chunked(specs, nchunks)]
     res = pmap(_stepper_job, rotate(jobs, seed), ordered=False)
     collect(run, d, res, t0)
@@ -1563,6 +1663,20 @@ def plans(tier):
         P.append(("scripts-random", "scripts", RANDS[:1], ["control"], "A", 4, True,
                   "Source.poisson(8/s)->RandomRouter->2 Servers(Exp 0.125s)->Sink, end 1.5s, random+numpy seeded: ALL scripts <= 4, set A"))
         P.append(("scripts-random", "scripts", RANDS, ["all"], "B", 3, True, "both stochastic pipelines, all observers: <= 3, set B"))
+    # ---- inspection / removal calls and metric breakpoints that hold at 0: must not change the run
+    insp = [("prog", p, None) for p in INSPECT_PROGRAMS]
+    if q:
+        P.append(("scripts-inspect", "scripts", insp, ["control"], "insp", 3, True,
+                  "4 hand-picked programs with cancelled + daemon events and auto-termination (no end time): ALL scripts "
+                  "<= 3 over {S1,S2,R,H1,BC,BM,BZ eq0/lt1/le0/ge0,peek_next(1),peek_next(3),find_events,get_state,"
+                  "list_breakpoints,remove_breakpoint,remove_hook,clear_breakpoints}"))
+        P.append(("scripts-inspect", "scripts", lib, ["control"], "insp", 2, True, "library / generator / stochastic models: <= 2"))
+    else:
+        P.append(("scripts-inspect", "scripts", insp + [("prog", p, 2) for p in INSPECT_PROGRAMS], ["control"], "insp", 4, True,
+                  "4 hand-picked programs with cancelled + daemon events x end{None,2}: ALL scripts <= 4 over the 18-symbol "
+                  "inspection alphabet"))
+        P.append(("scripts-inspect", "scripts", deep, ["all"], "insp", 3, True, "6 hand-picked programs x end{None,2}, all observers: <= 3"))
+        P.append(("scripts-inspect", "scripts", lib, ["control"], "insp", 3, True, "library / generator / stochastic models: <= 3"))
     # ---- every observation mode under pausing
     P.append(("scripts-modes", "scripts", deep_alt[:4] + lib, SCRIPT_MODES, "A", 2 if q else 3, True,
               "4 programs, 2 pipelines, 3 generator models, 2 stochastic pipelines x each of 6 observer combinations"))
@@ -1570,6 +1684,11 @@ def plans(tier):
     P.append(("reset-programs", "scripts", st1, ["control"], "rst", 2 if q else 3, False,
               "stateless 1-event programs (nop/emit/gen/genside/past; plain/daemon/pre-cancelled): scripts over "
               "{P,S1,S2,R,H1,BC2,BM,I0,Z}"))
+    pc = [x for x in prog_specs(2, CANCEL_BEHS, (1, 2), False, (None, 2), kinds=("plain", "daemon"))
+          if any(b[0] == "cancel" for (_t, _ti, _k, b) in x[1]) and make_model(x).cancel_safe]
+    P.append(("reset-programs", "scripts", pc, ["control"], "rst", 2 if q else 3, False,
+              "2-event programs over {nop, emit, gen, cancel 0, cancel 1} (plain/daemon) in which model code cancels a "
+              "pre-run event at or after that event's own delivery (replay-safe cancellation)"))
     P.append(("reset-programs", "scripts", stdeep, ["control"] if q else ["control", "all"], "rst", 3 if q else 4, False,
               "3 stateless 3-event programs x end{None,2}"))
     if not q:
@@ -1577,6 +1696,18 @@ def plans(tier):
                   "every stateless 2-event program of the small-alphabet family (1 target)"))
     return P
 
+
+CANCEL_BEHS = [("nop",), ("emit", 0, 1, False), ("gen", 1, 0), ("cancel", 0), ("cancel", 1)]
+
+# cancelled (lazily deleted) entries at the head of the heap, daemon events outliving the last primary one
+INSPECT_PROGRAMS = [
+    ((1, 0, "plain", ("nop",)), (2, 0, "cancelled", ("nop",)), (3, 0, "daemon", ("emit", 1, 1, True))),
+    ((0, 0, "plain", ("gen", 1, 1)), (1, 0, "plain", ("cancel", 2)), (2, 1, "plain", ("nop",)),
+     (2, 0, "daemon", ("emit", 1, 1, True))),
+    ((1, 0, "cancelled", ("nop",)), (1, 1, "daemon", ("gen", 1, 0)), (2, 0, "plain", ("emit", 0, 2, False))),
+    ((0, 0, "plain", ("genside", 1)), (1, 0, "cancelled", ("emit", 1, 1, False)), (1, 1, "daemon", ("nop",)),
+     (3, 1, "daemon", ("nop",))),
+]
 
 STATELESS_DEEP = [
     ((0, 0, "plain", ("emit", 1, 2, False)), (1, 1, "plain", ("gen", 1, 0)), (1, 0, "daemon", ("nop",))),
